@@ -10,10 +10,14 @@
 package main
 
 import (
+	"bytes"
 	"crypto"
+	"crypto/sha256"
 	"crypto/sha512"
+	"encoding/binary"
 	"fmt"
 	"os"
+	"runtime/coverage"
 	"strconv"
 	"strings"
 
@@ -31,6 +35,10 @@ import (
 func mark(id int) int { return id + 1 }
 
 var sink int
+
+// sinkB receives boolean results (converting them to int would be a secret-dependent branch of the harness itself,
+// which the source-level pass - the harness package is instrumented too - would see).
+var sinkB bool
 
 const nBlob = 40
 
@@ -123,6 +131,10 @@ func main() {
 		}
 		return out
 	}
+	if len(os.Args) > 1 && os.Args[1] == "cov" {
+		covMode()
+		return
+	}
 	if len(os.Args) > 1 && os.Args[1] == "-list" {
 		var base []window
 		if tier != "large" {
@@ -148,6 +160,74 @@ func main() {
 	fmt.Fprintln(os.Stdout, "done", len(ws), sink)
 }
 
+// covMode is the source-level pass (binary built with -cover -covermode=atomic over the library packages): every
+// window of the complete list (plus the large ones) is run between coverage.ClearCounters and
+// coverage.WriteCounters, and the SHA-256 of the counter file - the execution count of every source basic block of
+// the library the window ran - is printed.  The secret assignment comes from the environment (C08_SIGMA), so the
+// argument vector recorded in the counter file is the same for every secret; the orchestrator requires the hash of
+// window k to be identical for all sigma.  C08_COVDUMP=<k>:<dir> additionally writes window k's meta-data and
+// counter files into <dir> (for `go tool covdata textfmt`, to name the differing blocks).
+func covMode() {
+	sigma, _ := strconv.Atoi(os.Getenv("C08_SIGMA"))
+	dumpK, dumpDir := -1, ""
+	if d := os.Getenv("C08_COVDUMP"); d != "" {
+		i := strings.IndexByte(d, ':')
+		dumpK, _ = strconv.Atoi(d[:i])
+		dumpDir = d[i+1:]
+	}
+	if len(os.Args) > 2 && os.Args[2] == "-list" {
+		for i, w := range append(buildWindows(0), largeWindows()...) {
+			fmt.Printf("%d %s\n", i, w.name)
+		}
+		return
+	}
+	fillBlob(sigma)
+	ws := append(buildWindows(sigma), largeWindows()...)
+	var buf bytes.Buffer
+	// (without GOCOVERDIR the runtime only learns the counter mode when the meta-data is first emitted)
+	if err := coverage.WriteMeta(&buf); err != nil {
+		fmt.Fprintln(os.Stderr, "coverage.WriteMeta:", err)
+		os.Exit(2)
+	}
+	for i := range ws {
+		if err := coverage.ClearCounters(); err != nil {
+			fmt.Fprintln(os.Stderr, "coverage.ClearCounters:", err)
+			os.Exit(2)
+		}
+		ws[i].f()
+		buf.Reset()
+		if err := coverage.WriteCounters(&buf); err != nil {
+			fmt.Fprintln(os.Stderr, "coverage.WriteCounters:", err)
+			os.Exit(2)
+		}
+		if i == dumpK {
+			if err := coverage.WriteMetaDir(dumpDir); err != nil {
+				fmt.Fprintln(os.Stderr, "coverage.WriteMetaDir:", err)
+				os.Exit(2)
+			}
+			if err := coverage.WriteCountersDir(dumpDir); err != nil {
+				fmt.Fprintln(os.Stderr, "coverage.WriteCountersDir:", err)
+				os.Exit(2)
+			}
+		}
+		// counter file = 32-byte file header, 16-byte segment header {entries u64, strtab len u32, args len u32}, string
+		// table and argument section (both laid out in map-iteration order: not compared), counter clauses, footer
+		b := buf.Bytes()
+		if len(b) < 64 {
+			fmt.Fprintln(os.Stderr, "counter file too short")
+			os.Exit(2)
+		}
+		skip := 48 + int(binary.LittleEndian.Uint32(b[40:])) + int(binary.LittleEndian.Uint32(b[44:]))
+		if skip > len(b)-16 {
+			fmt.Fprintln(os.Stderr, "counter file layout not understood")
+			os.Exit(2)
+		}
+		pl := b[skip : len(b)-16]
+		fmt.Printf("cov %d %x %d\n", i, sha256.Sum256(pl), len(pl))
+	}
+	fmt.Println("done", len(ws))
+}
+
 // heavy32: quick-tier windows that are not traced on the 32-bit platform binary (see core32 above).
 var heavy32 = map[string]bool{
 	"ed25519.Sign(pure)": true, "ed25519.PrivateKey.Sign(added randomness)": true,
@@ -156,6 +236,7 @@ var heavy32 = map[string]bool{
 	"sr25519.MiniSecretKey.ExpandUniform": true, "sr25519.MiniSecretKey.ExpandEd25519": true,
 	"sr25519.SecretKey.PublicKey": true, "sr25519.KeyPair.Sign": true, "ecvrf.Prove": true,
 	"sr25519.SecretKey.MarshalBinary": true,
+	"sr25519.SecretKey.Equal": true, "sr25519.MiniSecretKey.Equal": true,
 }
 
 // heavyDuplicate: windows left to the thorough tier because a cheaper window of the quick tier drives the
@@ -230,6 +311,17 @@ func buildWindows(sigma int) []window {
 		ssk = msk.ExpandUniform()
 		kp = ssk.KeyPair()
 	}
+	// a second mini secret key / secret key: equal to the first for the patterned secrets (every blob entry holds
+	// the same pattern), different for the generic ones - so the equality tests see both classes over the alphabet
+	var msk2 sr25519.MiniSecretKey
+	copy(msk2[:], blob[21][:32])
+	var ssk2 *sr25519.SecretKey
+	if !lean {
+		ssk2 = msk2.ExpandUniform()
+	}
+	var mpA, mpB curve.MontgomeryPoint
+	mpA.SetEdwards(secP1)
+	mpB.SetEdwards(secP2)
 	sctx := sr25519.NewSigningContext([]byte("public context"))
 	f1, f2, f3 := fe(10), fe(11), fe(12)
 	var xsk, xu, xout [32]byte
@@ -259,7 +351,7 @@ func buildWindows(sigma int) []window {
 		{"ed25519.PrivateKey.Sign(ph)", func() { _, _ = sk.Sign(nil, ph[:], &ed25519.Options{Hash: crypto.SHA512}) }},
 		{"ed25519.PrivateKey.Sign(added randomness)", func() { _, _ = sk.Sign(&blobReader{}, msg, &ed25519.Options{AddedRandomness: true}) }},
 		{"ed25519.PrivateKey.Public/Seed", func() { _ = sk.Public(); _ = sk.Seed() }},
-		{"ed25519.PrivateKey.Equal", func() { sink += b2i(sk.Equal(sk2)) * 0 }},
+		{"ed25519.PrivateKey.Equal", func() { sinkB = sk.Equal(sk2) }},
 		// --- X25519 ---
 		{"x25519.ScalarMult", func() { x25519.ScalarMult(&xout, &xsk, &xu) }},
 		{"x25519.ScalarBaseMult", func() { x25519.ScalarBaseMult(&xout, &xsk) }},
@@ -369,6 +461,9 @@ func buildWindows(sigma int) []window {
 		{"sr25519.SecretKey.KeyPair", func() { _ = ssk.KeyPair() }},
 		{"sr25519.KeyPair.Sign", func() { _, _ = kp.Sign(&blobReader{}, sctx.NewTranscriptBytes(msg)) }},
 		{"sr25519.SecretKey.MarshalBinary", func() { _, _ = ssk.MarshalBinary() }},
+		{"sr25519.SecretKey.Equal", func() { sinkB = ssk.Equal(ssk2); sinkB = ssk.Equal(ssk) }},
+		{"sr25519.MiniSecretKey.Equal", func() { sinkB = msk.Equal(&msk2); sinkB = msk.Equal(&msk) }},
+		{"MontgomeryPoint.Equal(secret points)", func() { sink += (mpA.Equal(&mpB) + mpA.Equal(&mpA)) * 0 }},
 		// --- "same secret as the previous call?" ---
 		// Each window is preceded (outside the window's own call, but inside the same process history) by the same
 		// entry point on the all-zero secret, which is the sigma0 value: for sigma0 the window repeats the previous
@@ -414,11 +509,4 @@ func largeWindows() []window {
 		rps[i] = curve.RISTRETTO_BASEPOINT_POINT
 	}
 	return []window{mk(16), mk(190), {"RistrettoPoint.MultiscalarMul(n=190, secret scalars)", func() { rp.MultiscalarMul(rs, rps) }}}
-}
-
-func b2i(b bool) int {
-	if b {
-		return 1
-	}
-	return 0
 }
